@@ -58,6 +58,8 @@ READ_FILES = {
     # files shorter than any byte-order mark or sniffing window
     "empty": b"", "1byte": b"~", "2bytes": b"~A", "3bytes": b"~A\n", "4bytes": b"~V\n\n",
     # encodings whose decoder carries state across a rewind (byte-order mark at the start)
+    "gzip": __import__("gzip").compress(BASE.encode("ascii")), "gzip-nonascii": __import__("gzip").compress(NONASCII.encode("utf-8")),
+    "zip-magic": b"PK\x03\x04" + b"\x00" * 60, "nul-bytes": BASE.encode("ascii").replace(b"my well", b"my\x00well"),
     "utf16": NONASCII.encode("utf-16"), "utf32": NONASCII.encode("utf-32"), "utf16le": NONASCII.encode("utf-16-le"),
 }
 
@@ -93,6 +95,12 @@ READ_SCENARIOS = [
     ("read:2bytes:pathlib", "2bytes", {}, True),
     ("read:3bytes", "3bytes", {}, False),
     ("read:4bytes", "4bytes", {}, False),
+    ("read:gzip", "gzip", {}, False),
+    ("read:gzip:pathlib", "gzip", {}, True),
+    ("read:gzip:encoding", "gzip-nonascii", {"encoding": "utf-8"}, False),
+    ("read:gzip:noauto", "gzip", {"autodetect_encoding": False}, False),
+    ("read:zip-magic", "zip-magic", {}, False),
+    ("read:nul-bytes", "nul-bytes", {}, False),
     ("read:utf16:default", "utf16", {}, False),
     ("read:utf16:pathlib", "utf16", {}, True),
     ("read:utf16:encoding", "utf16", {"encoding": "utf-16"}, False),
@@ -142,6 +150,19 @@ WRITE_SCENARIOS = [
     ("to_csv:path:bad-dialect", "to_csv", "read", {"delimiter": "toolong"}, "path"),
     ("to_csv:fileobj:default", "to_csv", "read", {}, "fileobj"),
     ("to_csv:fileobj:bad-mnemonics", "to_csv", "read", {"mnemonics": [1, 2], "units_loc": "[]"}, "fileobj"),
+    # other kinds of caller-supplied objects (binary handle, BytesIO, StringIO), calls that succeed and calls that fail
+    ("write:binaryfile:default", "write", "read", {}, "fileobj-binary"),
+    ("write:binaryfile:bad-version", "write", "read", {"version": 3.0}, "fileobj-binary"),
+    ("write:binaryfile:bad-fmt", "write", "read", {"fmt": "%q"}, "fileobj-binary"),
+    ("to_csv:binaryfile:default", "to_csv", "read", {}, "fileobj-binary"),
+    ("to_csv:binaryfile:bad-dialect", "to_csv", "read", {"delimiter": "toolong"}, "fileobj-binary"),
+    ("write:bytesio:default", "write", "read", {}, "bytesio"),
+    ("write:bytesio:bad-version", "write", "read", {"version": 3.0}, "bytesio"),
+    ("to_csv:bytesio:bad-mnemonics", "to_csv", "read", {"mnemonics": [1, 2], "units_loc": "[]"}, "bytesio"),
+    ("write:stringio:bad-version", "write", "read", {"version": 3.0}, "stringio"),
+    ("write:stringio:missing-vers", "write", "missing-vers", {}, "stringio"),
+    ("to_csv:stringio:bad-dialect", "to_csv", "read", {"delimiter": "toolong"}, "stringio"),
+    ("write:fileobj:bad-fmt", "write", "read", {"fmt": "%q"}, "fileobj"),
 ]
 
 # two calls on the SAME LASFile: a path call (which may fail, by itself or by an injected fault) followed by a call
@@ -242,6 +263,18 @@ def run_once(name, inject_at):
             fo = open(path, "w", newline="")
             caller.append(fo)
             ref = fo
+        elif target == "fileobj-binary":
+            fo = open(path, "wb")       # the caller's own binary handle: whatever lasio makes of it, it stays the caller's
+            caller.append(fo)
+            ref = fo
+        elif target == "bytesio":
+            fo = io.BytesIO()
+            caller.append(fo)
+            ref = fo
+        elif target == "stringio":
+            fo = io.StringIO()
+            caller.append(fo)
+            ref = fo
         else:
             ref = path
         las = obj
@@ -257,8 +290,15 @@ def run_once(name, inject_at):
         for k, v in vars(las).items():
             if isinstance(v, (io.IOBase, faults.FileProxy)) and not v.closed:
                 holds.append(k)
+    outcome = "ok" if exc is None else type(exc).__name__
+    # ... and once more after the exception (with the frames it keeps alive) has been released and collected: a wrapper
+    # lasio put around the caller's object must not take it along when it is finalised
+    exc = None
+    gc.collect()
+    caller_closed = caller_closed + [str(getattr(c, "name", "?")) + " (after the exception was released)" for c in caller
+                                     if c.closed and getattr(c, "name", "?") not in caller_closed]
     res = {"trace_len": sess.count, "fired": sess.fired, "fired_all": list(sess.fired_all), "leaks": leaks, "caller_closed": caller_closed, "las_holds": holds,
-           "outcome": "ok" if exc is None else type(exc).__name__, "opens": len(sess.proxies),
+           "outcome": outcome, "opens": len(sess.proxies),
            "trace": [t[1] for t in sess.trace]}
     sess.close_all()
     for c in caller:
